@@ -3,7 +3,7 @@
    to the reason given for undefined behaviour.  Compiled against the freshly generated GenTlru.v: a
    change of the source that changes the meaning of a translated method breaks a lemma here. *)
 Require Import Capp.Base Capp.Spec Capp.Rr Capp.ListCacheFacts Capp.TtlLru Capp.TtlLruFacts Capp.RrLit Capp.LruLit Capp.TtlLit Capp.TtlLitFacts
-               Capp.GenPrims CappGen.GenTlru.
+               Capp.GenPrims Capp.Conc Capp.GenConc CappGen.GenTlru.
 From Coq Require Import Strings.String Lia.
 
 Section TlruBridge.
@@ -395,7 +395,26 @@ Section TlruBridge.
       exists l', run_res g_step (g_init cap) h = Ok (l', snd (run tl_step (tl_init false cap 0) h)) /\
                  tt_rep false l' (fst (run tl_step (tl_init false cap 0) h)).
   Proof. intros cap h Hc Hm. rewrite g_init_ok. apply generated_tlru_no_UB_on_any_history; auto. Qed.
+
+  (* ---- C06 on the translated program: in every execution of the lock-level machine (Conc.v, Section Lin: invoke,
+     acquire, body = one call of the generated program, release, return) every call returns what the mid-level
+     model returns when it runs the calls in the order of their critical sections — provided the clock readings
+     are monotone in that order, which is the case when a call reads the clock inside its critical section; where
+     the source reads it before taking the lock, this is an assumption about the schedule (the scheduler check of
+     C06 examines such schedules on the real code) ---- *)
+  Theorem generated_tlru_lock_level_executions_return_model_results : forall cap ex st,
+      1 <= cap ->
+      mexec _ _ _ (tstep g_step RUnsupported) (minit _ _ _ (g_init cap)) ex st ->
+      let l := lin _ _ _ (tstep g_step RUnsupported) (g_init cap) (fun _ => None) ex in
+      (fun h => mono_from 0 h) (map (fun c => snd (fst c)) l) ->
+      map snd l = (fun h => snd (run tl_step (tl_init false cap 0) h)) (map (fun c => snd (fst c)) l).
+  Proof.
+    intros cap ex st Hc Hex.
+    refine (executions_have_the_results_of_the_model g_step RUnsupported (fun h => mono_from 0 h) (fun h => snd (run tl_step (tl_init false cap 0) h)) (g_init cap) _ ex st Hex).
+    intros h HP. destruct (generated_tlru_constructed_no_UB_on_any_history cap h Hc HP) as (l' & D & _). eauto.
+  Qed.
 End TlruBridge.
 
 Print Assumptions generated_tlru_no_UB_on_any_history.
 Print Assumptions generated_tlru_constructed_no_UB_on_any_history.
+Print Assumptions generated_tlru_lock_level_executions_return_model_results.
